@@ -331,6 +331,18 @@ func refreshFaults(g lstore.Geometry, opName string, newBlockFaults, writeFaults
 			// the same on an object that needs no refresh (the store hands out the block's buffer itself)
 			_, err = e.s.BA.Get(context.Background(), u.F.Digest).ToByteSlice(1)
 			vsched.Obs("GetTooSmallFresh=%s", status.Code(err))
+		case "GetHoldThenUseStore":
+			// a caller that obtains a buffer (refresh in progress behind it) and talks to the store again before
+			// consuming it: the refresh must not hold anything the store needs while it waits for the consumer
+			b := e.s.BA.Get(context.Background(), first.Digest)
+			_, err2 := e.s.Get(u.F.Digest)
+			_, err3 := e.s.FindMissing(u.C.Digest)
+			err4 := e.put(u.B, false)
+			d, err := b.ToByteSlice(100)
+			vsched.Obs("GetHold=%s then Get=%s FM=%s Put=%s", status.Code(err), status.Code(err2), status.Code(err3), status.Code(err4))
+			if err == nil && !bytes.Equal(d, first.Content) {
+				failf("wrong-bytes", "held Get returned %q", d)
+			}
 		case "GetCloneCopy":
 			b1, b2 := e.s.BA.Get(context.Background(), first.Digest).CloneCopy(1)
 			_, err1 := b1.ToByteSlice(100)
@@ -634,7 +646,7 @@ func main() {
 	fb := ev.Pick(r, 1, 2)
 	for _, hier := range []bool{false, true} {
 		for _, pers := range []bool{false, true} {
-			for _, opn := range []string{"Get", "GetDiscard", "GetReaderEarlyClose", "GetTooSmall", "GetCloneCopy", "FindMissing", "GetFromComposite", "Put", "PutThenGet", "validating:Get", "validating:GetDiscard", "validating:GetReaderEarlyClose", "validating:GetTooSmall", "validating:GetCloneCopy", "validating:GetFromComposite"} {
+			for _, opn := range []string{"Get", "GetDiscard", "GetReaderEarlyClose", "GetTooSmall", "GetCloneCopy", "GetHoldThenUseStore", "FindMissing", "GetFromComposite", "Put", "PutThenGet", "validating:Get", "validating:GetHoldThenUseStore", "validating:GetDiscard", "validating:GetReaderEarlyClose", "validating:GetTooSmall", "validating:GetCloneCopy", "validating:GetFromComposite"} {
 				g := base
 				g.Hierarchical, g.Persistent = hier, pers
 				if strings.HasPrefix(opn, "validating:") {
